@@ -10,17 +10,18 @@ COMMON_TRUST = [
 PROPS = {}
 
 PROPS['C16'] = dict(
-    modules=['Vivid.Props.C16', 'Vivid.Tie.VVConstants'],
+    modules=['Vivid.Props.C16', 'Vivid.Props.C16Wire', 'Vivid.Tie.VVConstants'],
     gens=['constants'],
-    engines=[dict(name='vv', must_hit=['cmp:equal', 'cmp:before', 'cmp:after', 'cmp:concurrent', 'err:overflow', 'err:invalid', 'prune:truncated', 'wide:over-limit'])],
+    engines=[dict(name='vv', must_hit=['cmp:equal', 'cmp:before', 'cmp:after', 'cmp:concurrent', 'err:overflow', 'err:invalid', 'prune:truncated', 'wide:over-limit', 'ser:max-counter', 'ser:refused', 'rd:truncated', 'rd:damaged'])],
     rule='vv: every pair of vectors over <=3 keys x {absent,0,1,2,max-1,max} (exhaustive: compare+merge), every increment on each of them x '
          '{present, absent, empty, 256- and 257-byte names}, then seeded random vectors over 12 names incl. prune with random limits; '
+         'ser: write + read back of the enumerated vectors (counters up to the maximum), of counters above it and of 0/256/257-byte addresses, rd: truncated / bit-flipped / extended encodings; '
          'a case is non-trivial when both operands are non-empty and differ (pairs) or is an increment/prune; distinct = distinct op-line lists',
     exhaustive=True,
     trusted_base=COMMON_TRUST + ['Go map[string]uint64 modelled as an association list with distinct keys (WF); uint64 counters as Nat (no operation but Increment adds, and it guards at 2^63-1)'],
     assumptions=['map iteration order is arbitrary: theorems hold for every list order (results are functions of `get`)',
-                 'serialisation of vectors is covered under C12 (codec engine)'],
-    explanation='Theorems: Compare decides the component-wise order (hence partial order laws), Merge is the join, Increment is strictly After; '
+                 'the wire form is the schema vvTy of the codec model (shared with C12/C13); node addresses are byte strings'],
+    explanation='Theorems: Compare decides the component-wise order (hence partial order laws), Merge is the join, Increment is strictly After; a vector within the limits survives serialisation unchanged (C16Wire: representable + round trip consuming exactly its bytes); '
                 'tie: differential test of Compare/Merge/Increment/Compact/PruneWithMax against the model + independent oracle on the Go results + operand-immutability check.',
 )
 
@@ -85,7 +86,7 @@ CODEC_RULE = ('codec: for every registered message with a schema, seeded random 
 PROPS['C12'] = dict(
     modules=['Vivid.Props.C12', 'Vivid.Tie.Registry'],
     gens=['registry'],
-    engines=[dict(name='codec', only=r'ROUND-TRIP', must_hit=['enc:clusterGossip', 'enc:clusterJoinRequest', 'enc:Error', 'enc:PongMessage', 'corrupted:ok', 'corrupted:err', 'truncated:err', 'impl-roundtrip:OnKill'])],
+    engines=[dict(name='codec', only=r'ROUND-TRIP', must_hit=['enc:clusterGossip', 'enc:clusterJoinRequest', 'enc:Error', 'enc:PongMessage', 'corrupted:ok', 'corrupted:err', 'truncated:err', 'impl-roundtrip:OnKill', 'rfl:units', 'rfl:batch', 'rfl:nested', 'rfl-zero-width:ok'])],
     rule=CODEC_RULE,
     trusted_base=COMMON_TRUST + ['token <-> Go struct converters in harness/engines/codec.go (one per schema)', 'reflect semantics of the reflective fallback: exercised through Writer.Write on a fixed list of kinds, not modelled in general'],
     assumptions=['WT guard = enc returns some: lengths/counts < 2^32, integers within their width, Generation/counts within int32, version-vector entries valid; canon: nil vs empty map, time.Time as UnixNano, nil member states dropped, Error.err chain not serialised',
@@ -97,7 +98,7 @@ PROPS['C13'] = dict(
     modules=['Vivid.Props.C13', 'Vivid.Tie.Registry'],
     gens=['registry'],
     engines=[dict(name='codec', only=r'ALLOC|DEST-MODIFIED|ENCODE-SILENT|PANIC|FATAL|panic', must_hit=['truncated:err', 'corrupted:err', 'corrupted:ok', 'random:err', 'write:ok', 'write:err', 'memcap:65536',
-                                                                                          'wnil:err', 'wzero:nopanic', 'rfl:u64s', 'rfl:strs', 'rfl:recs', 'rfl:nested', 'rfl:rec', 'rfl-truncated:err', 'rfl-hostile:err', 'rflinto:err', 'rflinto:ok'])],
+                                                                                          'wnil:err', 'wzero:nopanic', 'rfl:u64s', 'rfl:strs', 'rfl:recs', 'rfl:nested', 'rfl:rec', 'rfl:units', 'rfl:batch', 'rfl-zero-width:ok', 'rfl-truncated:err', 'rfl-hostile:err', 'rflinto:err', 'rflinto:ok'])],
     rule=CODEC_RULE,
     trusted_base=COMMON_TRUST + ['runtime.MemStats.TotalAlloc as the allocation observation (budget 64 B per input byte + 16 MiB for the codec\'s own 65536-entry caps)'],
     assumptions=['no panic / no loop / no stack overflow are facts about the Go runtime: observed by the differential run (recover, child process), not provable in the model, whose decoder is total by construction',
@@ -121,7 +122,7 @@ for _pid, _only, _must in [
     ('C03', r'LOST-USER-MESSAGE|AFTER-STOP|ended twice|PANIC|LOST WAKE-UP|FATAL', ['ev:dead-letter', 'stash:dec1:hooks0', 'stash:dec1:hooks1', 'stash:dec2', 'stash:dec3', 'stash:dec5', 'stash:deck']),
     ('C05', r'LIFECYCLE|LAUNCH-TWICE|RESTART-NO-LAUNCH|STALE-INSTANCE|PANIC|FATAL', ['ev:restarted', 'ev:zombie', 'ev:spawn-err:prelaunch']),
     ('C06', r'KILL-ONCE|CHILDREN-FIRST|NOT-RELEASED|HALF-STOPPED|JOB-SURVIVES-OWNER|PANIC|FATAL', ['ev:killed-event', 'ev:spawn-err:exists', 'ev:spawn-err:dead', 'killvs:kill-first', 'killvs:directive-first', 'killvs:dec1:kill-first', 'killvs:dec1:directive-first', 'killvs:dec2:directive-first']),
-    ('C08', r'DECIDE-TWICE|SUPERVISION-WHILE-STOPPING|STAYS-PAUSED|HALF-STOPPED|PANIC|FATAL', ['ev:decide:1', 'ev:decide:2', 'ev:decide:3', 'ev:decide:4', 'ev:decide:5', 'ev:decide:6', 'matrix:', 'escal:kindM1:depth1', 'escal:kindM2:depth1', 'escal:kindM2:depth2']),
+    ('C08', r'DECIDE-TWICE|SUPERVISION-WHILE-STOPPING|STAYS-PAUSED|HALF-STOPPED|STALE-INSTANCE|PANIC|FATAL', ['stash:dec1:hooks1', 'stash:dec2:hooks1', 'ev:decide:1', 'ev:decide:2', 'ev:decide:3', 'ev:decide:4', 'ev:decide:5', 'ev:decide:6', 'matrix:', 'escal:kindM1:depth1', 'escal:kindM2:depth1', 'escal:kindM2:depth2']),
     ('C09', r'STAYS-PAUSED|HALF-STOPPED|NO-ANSWER|ZOMBIE-RUNS-USER-CODE|PANIC|FATAL', ['ev:restarted', 'ev:zombie', 'ev:decide:5', 'ev:decide:2', 'ev:decide:4', 'escal:kindM1:depth1', 'escal:kindM2:depth1', 'escal:kindM2:depth2', 'escal:dec5', 'escal:dec4', 'escal:dec2', 'killvs:kill-first', 'killvs:directive-first', 'killvs:dec1:kill-first', 'killvs:dec1:directive-first', 'killvs:dec2:directive-first']),
     ('C19', r'ES-TABLES|EVENT-TWICE|EVENT-NOT-SUBSCRIBED|EVENT-MISSED|PANIC|FATAL', ['ev:es-sub', 'ev:es-unsub', 'ev:es-unsuball', 'ev:es-pub-with-subscribers']),
 ]:
@@ -165,7 +166,7 @@ PROPS['C20'] = dict(
 PROPS['C07'] = dict(
     modules=['Vivid.Props.C07'],
     gens=[],
-    engines=[dict(name='sysfsm', must_hit=['ret:ok', 'ret:already-started', 'ret:already-stopped', 'ret:not-started', 'conc', 'census', 'slowstop', 'cancel-before-start'])],
+    engines=[dict(name='sysfsm', must_hit=['ret:ok', 'ret:already-started', 'ret:already-stopped', 'ret:not-started', 'conc', 'census', 'slowstop', 'busystop', 'selfstop', 'cancel-before-start'])],
     rule='sysfsm: real actor.System instances with real goroutines. (1) every sequential history of <= 3 (thorough 4) calls from {Start, Stop, cancel the context}: return value and status compared with the model after each call, '
          'each call under a 1.5 s watchdog (BLOCKED / LOCKED are observations); (2) every pair of calls released concurrently after the prefixes [], [Start], [Start, Stop], repeated: every call must return, at most one Start / one Stop returns nil; '
          '(3) goroutine census (frames under vivid / go-quartz) after a Start/Stop cycle. Non-trivial = every case; distinct = distinct call lists.',
@@ -258,7 +259,7 @@ PROPS['C10'] = dict(
 PROPS['C15'] = dict(
     modules=['Vivid.Props.C15', 'Vivid.Tie.Registry'],
     gens=['registry'],
-    engines=[dict(name='transp', must_hit=['op:tell', 'op:tellv', 'op:ask', 'op:kill', 'op:poison', 'op:watch', 'op:unwatch', 'op:watch-twin', 'op:unwatch-twin', 'op:ping', 'op:pipe-ok', 'op:pipe-fail', 'op:pipe-err', 'loc:remote', 'cfg:codec', 'cfg:registered'])],
+    engines=[dict(name='transp', must_hit=['op:tell', 'op:tellv', 'op:ask', 'op:kill', 'op:poison', 'op:watch', 'op:unwatch', 'op:watch-twin', 'op:unwatch-twin', 'op:ping', 'op:pipe-ok', 'op:pipe-fail', 'op:pipe-err', 'op:kill-busy', 'op:poison-busy', 'op:watch-stopping', 'loc:remote', 'cfg:codec', 'cfg:registered'])],
     rule='transp: two real systems over loopback TCP, once with a user Codec and once with RegisterCustomMessage; every ActorRef-taking operation (Tell of a pointer and of a value message, Ask/Reply, Kill graceful and poison, Watch, Unwatch, Ping, '
          'PipeTo with success and with failure results x local/remote forwarder) is executed from inside an actor against a local and against a remote target. Observation: the effects seen by the actors involved (messages with sender role, OnKill fields, '
          'termination, OnKilled.Ref, Pong, PipeResult content; references are rendered by role and checked to carry the address of the system the actor lives on) and the built-in message types the remoting layer reports as sent. Compared with the model, '
